@@ -131,13 +131,18 @@ package hessian
 //@   ensures [C17:return-bounded]        chlen(p.cached) <= chcap(p.cached)
 
 //@ func NewEncoderPool$1
+//@   assigns @opens, @clashes, @tr
 //@   ensures [C17,C12:factory-fresh-encoder] fresh(payload(result))
+//@   ensures [C17:factory-usable-encoder] payload(result).nameMap != nil
 
 //@ func NewDecoderPool$1
 //@   ensures [C17,C12:factory-fresh-decoder] fresh(payload(result))
+//@   ensures [C17:factory-usable-decoder] payload(result).typMap != nil
 
 //@ func NewSerializerPool$1
+//@   assigns @opens, @clashes, @tr
 //@   ensures [C17,C12:factory-fresh-serializer] fresh(payload(result)) && fresh(payload(result).encoder) && fresh(payload(result).decoder)
+//@   ensures [C17:factory-usable-serializer] payload(result).encoder.nameMap != nil && payload(result).decoder.typMap != nil
 
 //@ func (*Encoder).Reset
 //@   covers e
@@ -177,20 +182,22 @@ package hessian
 
 //@ func encodeString
 //@   pure
-//@   loop 1 invariant [C09:str-chunk-bounds] 0 <= begin && begin + length == len(dataBys) && begin & 2047 == 0 && length >= 1
-//@   loop 1 invariant [C09:str-chunk-stream] bufof(byteBuf) == G.strChunksTo(runes(value), begin)
+//@   loop 1 invariant [C09:str-chunk-bounds] 0 <= begin && begin + length == len(dataBys) && begin % _stringChunkSize == 0 && begin <= 4398046511104 && length >= 1
+//@   loop 1 invariant [C09:str-chunk-stream] bufof(byteBuf) == G.strChunksTo(runes(value), _stringChunkSize, begin)
 //@   loop 1 decreases length
+//@   ensures [C09,C02:str-chunk-size-legal] 0 < _stringChunkSize && _stringChunkSize <= 65535
 //@   ensures [C09,C02:str-empty]             value == "" ==> len(result) == 1 && result[0] == 0x00
-//@   ensures [C09,C02,C01:str-production]   value != "" ==> streamOf(result) == G.strProd(runes(value))
+//@   ensures [C09,C02,C01:str-production]   value != "" ==> streamOf(result) == G.strProd(runes(value), _stringChunkSize)
 //@   ensures [C02:str-len-units-2.0] forall k int :: 0 <= k && k < len(runes(value)) ==> runes(value)[k] < 0x10000
 
 //@ func encodeBinary
 //@   pure
-//@   loop 1 invariant [C09:bin-chunk-bounds] 0 <= begin && begin + length == len(value) && begin & 4095 == 0 && length >= 1
-//@   loop 1 invariant [C09:bin-chunk-stream] bufof(byteBuf) == G.binChunksTo(value, begin)
+//@   loop 1 invariant [C09:bin-chunk-bounds] 0 <= begin && begin + length == len(value) && begin % _binaryChunkSize == 0 && begin <= 4398046511104 && length >= 1
+//@   loop 1 invariant [C09:bin-chunk-stream] bufof(byteBuf) == G.binChunksTo(value, _binaryChunkSize, begin)
 //@   loop 1 decreases length
+//@   ensures [C09,C02:bin-chunk-size-legal] 0 < _binaryChunkSize && _binaryChunkSize <= 65535
 //@   ensures [C09,C02:bin-empty]            len(value) == 0 ==> len(result) == 1 && result[0] == 0x20
-//@   ensures [C09,C02,C01:bin-production]   len(value) != 0 ==> streamOf(result) == G.binProd(value)
+//@   ensures [C09,C02,C01:bin-production]   len(value) != 0 ==> streamOf(result) == G.binProd(value, _binaryChunkSize)
 
 // ---------------------------------------------------------------- string / binary decoders (C03, C09, C14)
 // @declared: the length the header of the chunk being read declares.
